@@ -95,6 +95,40 @@ theorem mem_take_of_le {l : List Nat} {m n : Nat} (h : m ≤ n) {b : Nat} (hb : 
   rw [this] at hb
   exact List.mem_of_mem_take hb
 
+/-- The batch part of the property, for `initTSTable` as written (`fixed = false`) and with the F14 repair
+    (`fixed = true`): after a crash at any cut point, startup opens, every served part is complete, the served
+    batches are a prefix of the acknowledged ones, contain what the last published manifest covers, and — once the
+    `k` system calls include the operation's own manifest publication — what the new table state covers. -/
+theorem crash_recovers_batches (fixed : Bool) (e : Nat) (os : List Op) (o : Op) (k : Nat) (t : Tree)
+    (hc : t = crashKill (cutState e os o k) ∨ crashPower (cutState e os o k) t) :
+    ∃ r, recoverWith fixed t = .ok r ∧ PartsComplete r ∧
+      (∃ j, j ≤ (ackedAt e os).length ∧ (servedBatches r).Perm ((ackedAt e os).take j)) ∧
+      (∀ b ∈ coveredBy (histTbl { epoch := e } os), b ∈ servedBatches r) ∧
+      ((opPre (histTbl { epoch := e } os) o).length ≤ k →
+        ∀ b ∈ coveredBy (opSteps (histTbl { epoch := e } os) o).2, b ∈ servedBatches r) := by
+  obtain ⟨G, c, h, hq, h1, h2⟩ := acc_at_cut e os o k
+  have hcrash : ∃ (m : NS Name) (data : Nat → Content), t = resolve m data ∧ NSOK G m ∧
+      DataOK (cutState e os o k) data := by
+    rcases hc with rfl | hc
+    · exact inv_crashKill h
+    · exact inv_crashPower h t hc
+  obtain ⟨m, data, rfl, hN, hd⟩ := hcrash
+  obtain ⟨r, hr, hcomp, k', hck, hkA, hperm⟩ := served_batches_of_acc fixed h.gwf hN h.stable hd hq.acc hq.zero
+  refine ⟨r, hr, hcomp, ⟨k', hkA, hperm⟩, ?_, ?_⟩
+  · intro b hb
+    have htb := tb_at e os
+    have hb' : b ∈ (histTbl { epoch := e } os).acked.take (fileBatches (histTbl { epoch := e } os)).length :=
+      htb.file.mem_iff.1 hb
+    exact hperm.mem_iff.2 (mem_take_of_le (Nat.le_trans h1 hck) hb')
+  · intro hk b hb
+    have htb := tb_after e os o
+    have hb' := htb.file.mem_iff.1 hb
+    obtain ⟨x, hx⟩ := opSteps_acked (histTbl { epoch := e } os) o
+    have hn1 : (fileBatches (opSteps (histTbl { epoch := e } os) o).2).length ≤
+        (histTbl { epoch := e } os).acked.length := Nat.le_trans (Nat.le_trans (h2 hk) hck) hkA
+    rw [hx, List.take_append_of_le_length hn1] at hb'
+    exact hperm.mem_iff.2 (mem_take_of_le (Nat.le_trans (h2 hk) hck) hb')
+
 /-- **C04 on the model.**  Take any history `os`, one more operation `o`, any number `k` of its system calls,
     and crash there — `kill -9`, or power loss with whatever subset of the un-fsynced directory operations and
     whatever admissible file data survive.  Then startup (`recover` = `initTSTable` with the fix for F14)
@@ -113,31 +147,24 @@ theorem crash_recovers_prefix (e : Nat) (os : List Op) (o : Op) (k : Nat) (t : T
       (∀ b ∈ coveredBy (histTbl { epoch := e } os), b ∈ servedBatches r) ∧
       ((opPre (histTbl { epoch := e } os) o).length ≤ k →
         ∀ b ∈ coveredBy (opSteps (histTbl { epoch := e } os) o).2, b ∈ servedBatches r) := by
-  obtain ⟨G, c, h, hq, h1, h2⟩ := acc_at_cut e os o k
-  have hcrash : ∃ (m : NS Name) (data : Nat → Content), t = resolve m data ∧ NSOK G m ∧
-      DataOK (cutState e os o k) data := by
-    rcases hc with rfl | hc
-    · exact inv_crashKill h
-    · exact inv_crashPower h t hc
-  obtain ⟨m, data, rfl, hN, hd⟩ := hcrash
-  obtain ⟨r, hr, hcomp, k', hck, hkA, hperm⟩ := served_batches_of_acc h.gwf hN h.stable hd hq.acc hq.zero
-  obtain ⟨r', hr', _, hleft⟩ := (recoversOK_of_inv h hN hd).opens
-  have hrr : r' = r := by rw [hr] at hr'; cases hr'; rfl
+  obtain ⟨r, hr, hcomp, h1, h2, h3⟩ := crash_recovers_batches true e os o k t hc
+  obtain ⟨r', hr', _, hleft⟩ := (crash_recovers_prefix_partial e os o k t hc).opens
+  have hrr : r' = r := by
+    have hr2 : recover t = .ok r := hr
+    rw [hr2] at hr'; cases hr'; rfl
   subst hrr
-  refine ⟨r', hr, hcomp, hleft, ⟨k', hkA, hperm⟩, ?_, ?_⟩
-  · intro b hb
-    have htb := tb_at e os
-    have hb' : b ∈ (histTbl { epoch := e } os).acked.take (fileBatches (histTbl { epoch := e } os)).length :=
-      htb.file.mem_iff.1 hb
-    exact hperm.mem_iff.2 (mem_take_of_le (Nat.le_trans h1 hck) hb')
-  · intro hk b hb
-    have htb := tb_after e os o
-    have hb' := htb.file.mem_iff.1 hb
-    obtain ⟨x, hx⟩ := opSteps_acked (histTbl { epoch := e } os) o
-    have hn1 : (fileBatches (opSteps (histTbl { epoch := e } os) o).2).length ≤
-        (histTbl { epoch := e } os).acked.length := Nat.le_trans (Nat.le_trans (h2 hk) hck) hkA
-    rw [hx, List.take_append_of_le_length hn1] at hb'
-    exact hperm.mem_iff.2 (mem_take_of_le (Nat.le_trans (h2 hk) hck) hb')
+  exact ⟨r', hr, hcomp, hleft, h1, h2, h3⟩
+
+/-- The function **as written** at the pinned commit (`recoverLegacy`, without the F14 repair) serves the same
+    durable prefix; only `NoLeftovers` is lost (finding F14). -/
+theorem crash_recovers_prefix_as_written (e : Nat) (os : List Op) (o : Op) (k : Nat) (t : Tree)
+    (hc : t = crashKill (cutState e os o k) ∨ crashPower (cutState e os o k) t) :
+    ∃ r, recoverLegacy t = .ok r ∧ PartsComplete r ∧
+      (∃ j, j ≤ (ackedAt e os).length ∧ (servedBatches r).Perm ((ackedAt e os).take j)) ∧
+      (∀ b ∈ coveredBy (histTbl { epoch := e } os), b ∈ servedBatches r) ∧
+      ((opPre (histTbl { epoch := e } os) o).length ≤ k →
+        ∀ b ∈ coveredBy (opSteps (histTbl { epoch := e } os) o).2, b ∈ servedBatches r) :=
+  crash_recovers_batches false e os o k t hc
 
 /-- The same with the publication recognised in the system calls themselves: once the `k` system calls contain
     `rename(<epoch>.snp.tmp, <epoch>.snp)` followed by `fsync(root)` (`pubDone`), every batch covered by the
